@@ -32,7 +32,7 @@ def run(ctx):
     n = 1500 if ctx.thorough else 160
     beh = mc.gen_meta(ctx, "beh.ndjson", n, 14, True, True, False, '{"label", "delete"}', labelw=6, maxbundles=7)
     cfgs = [["--leaf", "65536", "--strict-order", "--apply", "--batch", str(b), "--list-conc", str(c), "--final-download=false",
-             "--deep=false"] for b, c in ([(1, 1), (2, 4), (3, 0)] if not ctx.thorough else [(1, 1), (1, 32), (2, 4), (3, 0), (5, 2), (7, 1)])]
+             "--deep=false"] for b, c in ([(1, 1), (2, 4), (3, 0), (3, 2)] if not ctx.thorough else [(1, 1), (1, 32), (2, 4), (3, 0), (3, 2), (5, 2), (5, 3), (7, 1)])]
     results += vlib.parallel(mc.replay_jobs(ctx, beh, cfgs), max_workers=6)
     if True:
         # many objects: pages of the default size are crossed
